@@ -667,6 +667,7 @@ def gen_obligations(tier, seed, universes, alphabet_, run_model_, gen_filter, st
                                 "ops": base + [op]})
         out.extend(detours(alpha, uni, weighted, rng, 14 if q else 80))
         out.extend(pair_layers(alpha, uni, weighted, rng, q))
+        out.extend(shrink_collisions(alpha, uni, weighted, rng, q))
         for _ in range(n_long[0 if q else 1]):
             n = rng.randint(4, 6)
             out.append({"family": "hist", "layer": "seeded", "universe": uni, "weighted": weighted,
@@ -682,6 +683,35 @@ def gen_obligations(tier, seed, universes, alphabet_, run_model_, gen_filter, st
 
 
 UNIVERSES_ALL = {"int": [0, 1, 2], "str": ["a", "b", "c"]}
+
+
+def shrink_collisions(alpha, uni, weighted, rng, q):
+    """insert e and e + {n} (same time / layer), then remove n keeping the hyperedges: the shrunk hyperedge lands on an
+    existing one (weights add up, the record is incident once)"""
+    out = []
+    adds = [o for o in alpha if o[0] == "add_edge" and o[-1] is None and ["remove_edge"] + o[1:-2] in alpha
+            and not isinstance(o[2] if len(o) > 4 else 0, dict) and (len(o) < 5 or not (isinstance(o[2], int) and o[2] < 0))
+            and isinstance(o[1], list) and o[1] and not isinstance(o[1][0], list)]
+    keeps = [o for o in alpha if o[0] == "remove_node" and len(o) > 2 and o[2] is True]
+    for big in adds:
+        for small in adds:
+            if big[2:-2] != small[2:-2]:  # same time / layer
+                continue
+            extra = set(big[1]) - set(small[1])
+            if len(extra) != 1 or not set(small[1]) < set(big[1]):
+                continue
+            n = list(extra)[0]
+            rn = [o for o in keeps if o[1] == n]
+            if not rn:
+                continue
+            out.append({"family": "hist", "layer": "shrink-collision", "universe": uni, "weighted": weighted,
+                        "ops": [small, big, rn[0]]})
+            out.append({"family": "hist", "layer": "shrink-collision", "universe": uni, "weighted": weighted,
+                        "ops": [big, small, rn[0]] + ([o for o in alpha if o[0] == "set_weight" and o[1] == small[1]
+                                                       and o[2:-1] == small[2:-2]][:1])})
+    if q:
+        out = out[:12]
+    return out
 
 
 def pair_layers(alpha, uni, weighted, rng, q):
